@@ -1,2 +1,212 @@
-//! Harnesses for property C43 (see /verif/properties.jsonl).
-use crate::stubs;
+//! C43 The PTP clock controller reports and steers consistently.
+//!
+//! Concrete instantiation: `KalmanController<NoAllocKalmanStorage<RecClock, 16>, RecClock>` where `RecClock`
+//! records every `set_frequency` / `step_clock` call in ghost statics and returns symbolic
+//! `get_frequency` / `max_frequency` values.
+use crate::c42::filter_config;
+use statime_algo::verif::controller as ch;
+use statime_algo::verif::estimator as eh;
+use statime_algo::verif::filter as fh;
+use statime_algo::{KalmanController, NoAllocKalmanStorage};
+use statime_base::verif::identifiers as ih;
+use statime_base::verif::time_types as th;
+use statime_base::{Clock, ClockError, ClockId, Duration, LeapStatus, TAI, Timestamp};
+
+// ------------------------------------------------------------------ recording clock
+static mut NOW: u128 = 0;
+static mut CUR_FREQ: [f64; 2] = [0.0; 2];
+static mut MAX_FREQ: [f64; 2] = [1e-4; 2];
+static mut SET_CALLS: [u8; 2] = [0; 2];
+static mut SET_VAL: [f64; 2] = [0.0; 2];
+static mut STEP_CALLS: [u8; 2] = [0; 2];
+static mut STEP_VAL: [i128; 2] = [0; 2];
+
+#[derive(Clone)]
+struct RecClock(usize);
+impl Clock for RecClock {
+    fn now(&self) -> Result<Timestamp<TAI>, ClockError> {
+        Ok(th::ts_from_raw(unsafe { NOW }))
+    }
+    fn set_frequency(&self, freq: f64) -> Result<Timestamp<TAI>, ClockError> {
+        unsafe {
+            SET_CALLS[self.0] += 1;
+            SET_VAL[self.0] = freq;
+        }
+        self.now()
+    }
+    fn get_frequency(&self) -> Result<f64, ClockError> {
+        Ok(unsafe { CUR_FREQ[self.0] })
+    }
+    fn max_frequency(&self) -> Result<f64, ClockError> {
+        Ok(unsafe { MAX_FREQ[self.0] })
+    }
+    fn step_clock(&self, offset: Duration) -> Result<Timestamp<TAI>, ClockError> {
+        unsafe {
+            STEP_CALLS[self.0] += 1;
+            STEP_VAL[self.0] = th::dur_raw(offset);
+        }
+        self.now()
+    }
+    fn error_estimate_update(&self, _e: Duration, _m: Duration) -> Result<(), ClockError> {
+        Ok(())
+    }
+    fn leap_update(&self, _l: LeapStatus) -> Result<(), ClockError> {
+        Ok(())
+    }
+    fn synchronization_update(&self, _s: bool) -> Result<(), ClockError> {
+        Ok(())
+    }
+}
+type Ctl = KalmanController<NoAllocKalmanStorage<RecClock, 16>, RecClock>;
+
+// ------------------------------------------------------------------ queries
+/// `in_defect_region`: offset and frequency estimates differ (value or variance). The unchanged
+/// tree answers the frequency query with the offset estimate, so the frequency assertions are only
+/// made outside that region in `c43_query`; `c43_query_kf_frequency_is_offset` makes them inside.
+fn query(check_frequency_when_distinct: bool) {
+    let off: f64 = kani::any();
+    let frq: f64 = kani::any();
+    let var_off_sel: bool = kani::any();
+    let var_frq_sel: bool = kani::any();
+    let unknown_raw: usize = kani::any();
+    let (var_off, unc_off) = if var_off_sel { (4.0, 2.0) } else { (9.0, 3.0) };
+    let (var_frq, unc_frq) = if var_frq_sel { (4.0, 2.0) } else { (9.0, 3.0) };
+
+    let (ctl, sys) = Ctl::new(RecClock(0), 1e-8, filter_config()).unwrap();
+    ch::with_filter(&ctl, |f| {
+        let e = fh::filter_estimator_mut(f);
+        assert!(eh::est_clock_row(e, sys) == Some(0) && eh::est_clock_freq_row(e, sys) == Some(1), "one clock: offset row 0, frequency row 1");
+        eh::est_state_set(e, 0, off);
+        eh::est_state_set(e, 1, frq);
+        eh::est_cov_set(e, 0, 0, var_off);
+        eh::est_cov_set(e, 1, 1, var_frq);
+    });
+
+    let qo = ctl.clock_offset(sys);
+    assert!(
+        matches!(qo, Ok(v) if v.value.to_bits() == off.to_bits() && v.uncertainty == unc_off),
+        "offset query reports the offset estimate and its standard deviation"
+    );
+    let distinct = off.to_bits() != frq.to_bits() || var_off_sel != var_frq_sel;
+    if distinct == check_frequency_when_distinct {
+        let qf = ctl.clock_frequency(sys);
+        assert!(matches!(qf, Ok(v) if v.value.to_bits() == frq.to_bits()), "frequency query reports the frequency estimate");
+        assert!(matches!(qf, Ok(v) if v.uncertainty == unc_frq), "frequency query reports the frequency standard deviation");
+        kani::cover!(true, "frequency query checked");
+    }
+    let unknown = ih::clock_id_from_raw(unknown_raw);
+    if unknown != sys {
+        assert!(ctl.clock_offset(unknown).is_err() && ctl.clock_frequency(unknown).is_err(), "queries for an unknown clock fail");
+    }
+    kani::cover!(off > 1.0 && frq < 0.0, "distinct estimates");
+}
+
+#[kani::proof]
+#[kani::unwind(18)]
+fn c43_query() {
+    query(false);
+}
+
+/// Expected to FAIL (known-finding candidate): `KalmanController::clock_frequency` calls
+/// `filter.clock_offset`.
+#[kani::proof]
+#[kani::unwind(18)]
+fn c43_query_kf_frequency_is_offset() {
+    query(true);
+}
+
+// ------------------------------------------------------------------ steering
+const TWO_M64: f64 = 1.0 / 18446744073709551616.0;
+const TWO_64: f64 = 18446744073709551616.0;
+
+fn finite(x: f64) -> bool {
+    x.is_finite()
+}
+
+/// Two steered clocks (system clock = index 0 and one more), no links, zero time step.
+/// Pre-state: finite estimates, |offset| < 2^62 s, variances >= 0; clock contract: finite current
+/// frequency, finite maximum >= 0.
+#[kani::proof]
+#[kani::unwind(18)]
+fn c43_steer() {
+    let st: [f64; 4] = kani::any(); // off0 frq0 off1 frq1
+    let var: [f64; 4] = kani::any();
+    let cur: [f64; 2] = kani::any();
+    let max: [f64; 2] = kani::any();
+    let mut i = 0;
+    while i < 4 {
+        kani::assume(finite(st[i]) && finite(var[i]) && var[i] >= 0.0);
+        i += 1;
+    }
+    kani::assume(st[0].abs() < 4.6e18 && st[2].abs() < 4.6e18);
+    kani::assume(finite(cur[0]) && finite(cur[1]) && finite(max[0]) && finite(max[1]) && max[0] >= 0.0 && max[1] >= 0.0);
+
+    let (ctl, sys) = Ctl::new(RecClock(0), 1e-8, filter_config()).unwrap();
+    let second = ctl.add_clock(RecClock(1), 1e-8).unwrap();
+    ch::with_filter(&ctl, |f| {
+        let e = fh::filter_estimator_mut(f);
+        assert!(eh::est_clock_row(e, sys) == Some(0) && eh::est_clock_row(e, second) == Some(2), "construction order");
+        let mut r = 0;
+        while r < 4 {
+            eh::est_state_set(e, r, st[r]);
+            eh::est_cov_set(e, r, r, var[r]);
+            r += 1;
+        }
+    });
+    unsafe {
+        CUR_FREQ = cur;
+        MAX_FREQ = max;
+        SET_CALLS = [0; 2];
+        STEP_CALLS = [0; 2];
+    }
+
+    let res = ch::steer_clocks(&ctl);
+    assert!(res.is_ok(), "steering succeeds when the clocks do");
+
+    let mut after = [0.0f64; 4];
+    let mut t_after = 0u128;
+    ch::with_filter(&ctl, |f| {
+        let e = fh::filter_estimator(f);
+        let mut r = 0;
+        while r < 4 {
+            after[r] = eh::est_state_get(e, r);
+            r += 1;
+        }
+        t_after = th::ts_raw(eh::est_time(e));
+    });
+
+    let mut c = 0;
+    while c < 2 {
+        let (sets, steps, x, d) = unsafe { (SET_CALLS[c], STEP_CALLS[c], SET_VAL[c], STEP_VAL[c]) };
+        assert!(sets + steps == 1, "each clock is either slewed or stepped, once");
+        let (o, f) = (2 * c, 2 * c + 1);
+        if sets == 1 {
+            assert!(x >= -max[c] && x <= max[c], "frequency set on a clock lies within that clock's maximum");
+            let applied = x - cur[c];
+            assert!(after[f].to_bits() == (st[f] + applied).to_bits(), "frequency estimate changes by the applied frequency change");
+            assert!(after[o].to_bits() == st[o].to_bits(), "offset estimate untouched by a frequency change");
+        } else {
+            // the step handed to the clock, as seconds (exact: at most 53 significant bits survive from_f64_seconds)
+            let applied = (d as f64) / TWO_64;
+            let want = st[o] + applied;
+            assert!((after[o] - want).abs() <= TWO_M64, "offset estimate changes by the applied step (one duration unit + one rounding)");
+            assert!(after[f].to_bits() == st[f].to_bits(), "frequency estimate untouched by a step");
+            if c == 0 {
+                assert!(t_after == (d as u128), "stepping the system clock moves the filter time by the step");
+            }
+        }
+        c += 1;
+    }
+    let (s0, s1) = unsafe { (SET_CALLS[0], SET_CALLS[1]) };
+    if s0 == 0 {
+        // only the system clock step moves the filter time
+    } else {
+        assert!(t_after == 0, "filter time unchanged without a system clock step");
+    }
+    kani::cover!(s0 == 1 && unsafe { SET_VAL[0] } == max[0] && max[0] > 0.0, "system clock slew clamped at +max");
+    kani::cover!(s1 == 1 && unsafe { SET_VAL[1] } == -max[1] && max[1] > 0.0, "second clock slew clamped at -max");
+    kani::cover!(s0 == 1 && unsafe { SET_VAL[0] }.abs() < max[0], "unclamped slew");
+    kani::cover!(s0 == 0 && st[0] < 0.0, "system clock stepped (negative offset)");
+    kani::cover!(s1 == 0 && st[2] >= 10.0, "second clock stepped (large offset)");
+    kani::cover!(s0 == 1 && s1 == 0, "one slewed, one stepped");
+}
